@@ -1,0 +1,70 @@
+//go:build verif
+
+// Contracts for package calculator/tokenizers (comment-only; read by /verif's VC generator).
+package tokenizers
+
+//@ func (c *ExpressionQuoteState) EncodeString
+//@   requires scalar(quoteSymbol)
+//@   ensures[C14] rlen(result) >= 2 && result[0] == quoteSymbol && result[rlen(result) - 1] == quoteSymbol
+//@   assigns nothing
+//@   nopanic
+//
+// "decoding never fails on any input": no precondition at all
+//@ func (c *ExpressionQuoteState) DecodeString
+//@   ensures[C14] !quoted(value, quoteSymbol) ==> result == value
+//@   assigns nothing
+//@   nopanic
+//
+// a quoted literal: opening quote, characters with doubled quotes as data, closing quote (or end of input)
+//@ func (c *ExpressionQuoteState) NextToken
+//@   requires c != nil && isScanner(scanner) && sc(scanner).position + 1 < len(sc(scanner).content)
+//@   requires forall i int :: 0 <= i && i < len(sc(scanner).content) ==> scalar(sc(scanner).content[i])
+//@   ensures[C04,C12] result != nil && isScanner(scanner) && sc(scanner).content == old(sc(scanner).content)
+//@   ensures[C04] spans(result.value, scanner, old(cur(scanner)), cur(scanner))
+//@   ensures[C12] result.line == L(seq(sc(scanner).content), old(cur(scanner))) && result.column == C(seq(sc(scanner).content), old(cur(scanner)))
+//@   assigns sc(scanner).position, sc(scanner).line, sc(scanner).column
+//@   nopanic
+//@   ensures[C13,C14] result.typ == (sc(scanner).content[old(cur(scanner))] == 34 ? tokenizers.Word : tokenizers.Quoted)
+//@   loop 0
+//@     invariant isScanner(scanner) && sc(scanner).content == old(sc(scanner).content)
+//@     invariant old(sc(scanner).position) + 1 <= sc(scanner).position && sc(scanner).position <= len(sc(scanner).content)
+//@     invariant nextSymbol == chr(seq(sc(scanner).content), sc(scanner).position)
+//@     invariant old(sc(scanner).position) + 2 <= sc(scanner).position + (nextSymbol == -1 ? 1 : 0)
+//@     invariant firstSymbol == sc(scanner).content[old(cur(scanner))]
+//@     invariant spans(builder(tokenValue), scanner, old(cur(scanner)), min(sc(scanner).position, len(sc(scanner).content)))
+//@     decreases len(sc(scanner).content) - sc(scanner).position
+//
+// keywords keep their spelling; the token is the word the generic word state read
+//@ func (c *ExpressionWordState) NextToken
+//@   requires c.GenericWordState != nil && mapInv(c.GenericWordState.mp)
+//@   requires c != nil && isScanner(scanner) && sc(scanner).position + 1 < len(sc(scanner).content)
+//@   requires forall i int :: 0 <= i && i < len(sc(scanner).content) ==> scalar(sc(scanner).content[i])
+//@   ensures[C04,C12] result != nil && isScanner(scanner) && sc(scanner).content == old(sc(scanner).content)
+//@   ensures[C04] spans(result.value, scanner, old(cur(scanner)), cur(scanner))
+//@   ensures[C12] result.line == L(seq(sc(scanner).content), old(cur(scanner))) && result.column == C(seq(sc(scanner).content), old(cur(scanner)))
+//@   assigns sc(scanner).position, sc(scanner).line, sc(scanner).column
+//@   nopanic
+//@   ensures[C13] result.typ == tokenizers.Word || result.typ == tokenizers.Keyword
+//@   loop 0
+//@     invariant -1 <= rangeindex && rangeindex < len(Keywords)
+//@     decreases len(Keywords) - rangeindex
+//
+// a number without sign, optional exponent [eE][+-]?digits taken only when a digit follows
+//@ func (c *ExpressionNumberState) NextToken
+//@   requires c.GenericNumberState != nil && tokenizer != nil && symState(tokenizer) != nil
+//@   requires c != nil && isScanner(scanner) && sc(scanner).position + 1 < len(sc(scanner).content)
+//@   requires forall i int :: 0 <= i && i < len(sc(scanner).content) ==> scalar(sc(scanner).content[i])
+//@   ensures[C04,C12] result != nil && isScanner(scanner) && sc(scanner).content == old(sc(scanner).content)
+//@   ensures[C04] spans(result.value, scanner, old(cur(scanner)), cur(scanner))
+//@   ensures[C12] result.line == L(seq(sc(scanner).content), old(cur(scanner))) && result.column == C(seq(sc(scanner).content), old(cur(scanner)))
+//@   assigns sc(scanner).position, sc(scanner).line, sc(scanner).column
+//@   nopanic
+//@   loop 0
+//@     invariant isScanner(scanner) && sc(scanner).content == old(sc(scanner).content)
+//@     invariant old(sc(scanner).position) + 1 <= sc(scanner).position && sc(scanner).position <= len(sc(scanner).content)
+//@     invariant nextChar == chr(seq(sc(scanner).content), sc(scanner).position + 1)
+//@     invariant spans(token.value, scanner, old(cur(scanner)), old(cur(scanner)) + rlen(token.value))
+//@     invariant spans(builder(tokenValue), scanner, old(cur(scanner)) + rlen(token.value), sc(scanner).position + 1)
+//@     invariant token != nil && line == L(seq(sc(scanner).content), old(cur(scanner))) && column == C(seq(sc(scanner).content), old(cur(scanner)))
+//@     invariant sc(scanner).position + 1 <= len(sc(scanner).content)
+//@     decreases len(sc(scanner).content) - sc(scanner).position
